@@ -19,6 +19,21 @@ def run(rep, tier):
         if df is None:
             continue
         aff.r_dense(rep, ctx, m, t, df)
+        # the elementary weights above are those of an autonomous system; for x-dependent right-hand sides every stage the
+        # interpolant uses must be evaluated at the abscissa its weights sum to (c_i = sum_j a_ij)
+        from fractions import Fraction
+        tol = Fraction(0) if aff.exact_mode(t["A"], t["b"]) else aff.APPROX_TOL
+        fn = aff.solve_def(m)
+        for i in sorted(df["w"]):
+            if i == 0 or i >= len(t["A"]):
+                continue
+            rs = sum(t["A"][i].values(), Fraction(0))
+            key = "R-AFF-DENSE:%s:rowsum:stage%d" % (fn, i)
+            if abs(rs - t["c"][i]) <= tol:
+                rep.ok("R-AFF-DENSE", key, "dense stage %d: c = %s = sum of its weights" % (i, t["c"][i]))
+            else:
+                rep.violation("R-AFF-DENSE", key, "stage %d enters the interpolant; it is evaluated at x + %s*h but its weights sum to %s: the dense output loses its order for x-dependent right-hand sides"
+                              % (i, t["c"][i], rs), aff.span(t["hk"].stages[i]["node"]))
     rep.rule("R-AFF-COLLOC", "Radau's interpolant, reconstructed from RADAU::interpolate and the stored blocks, passes through y_old and y_old + Z_i at theta = 0, c1, c2, 1: it is the collocation polynomial")
     radau.r_radau_dense(rep, f)
     import dense
